@@ -482,9 +482,9 @@ Proof.
   subst pre. apply in_app_or in Hin1 as [Hin1|[<-|Hin1]].
   - apply in_split in Hin1 as (p1 & p2 & ->).
     eapply (H1 p1 ev1 p2 ev b e post r svc t o); try eassumption.
-    rewrite Htr. rewrite <- !app_assoc. cbn [app]. rewrite <- !app_assoc. reflexivity.
+    rewrite Htr. repeat first [rewrite <- app_assoc|progress cbn [app]]. reflexivity.
   - rewrite Hev in Hk1. discriminate.
   - apply in_split in Hin1 as (p2 & p3 & ->).
     eapply (H2 a ev p2 ev1 p3 e post r svc t o); try eassumption.
-    rewrite Htr. rewrite <- !app_assoc. cbn [app]. rewrite <- !app_assoc. reflexivity.
+    rewrite Htr. repeat first [rewrite <- app_assoc|progress cbn [app]]. reflexivity.
 Qed.
